@@ -16,9 +16,10 @@ from .model import AnalysisError
 
 
 class Scenario:
-    def __init__(self, name, vtypes, edges, fixed=(), fix_first_pose=False, err_len=2, alias=None):
+    def __init__(self, name, vtypes, edges, fixed=(), fix_first_pose=False, err_len=2, alias=None, symbolic_ids=False):
         self.name, self.vtypes, self.edges, self.fixed, self.ffp, self.err_len = name, vtypes, edges, set(fixed), fix_first_pose, err_len
         self.alias = alias      # (i, j): vertices i and j hold the *same* pose object
+        self.symbolic_ids = symbolic_ids   # ids are opaque pairwise-distinct names: every order relation between them is explored
 
 
 BASE_V = ["PoseR2", "PoseSE2", "PoseR2"]
@@ -119,14 +120,16 @@ def _build(it, scn):
     poses = [sym_pose(t, "x%d" % k) for k, t in enumerate(scn.vtypes)]
     if scn.alias:
         poses[scn.alias[1]] = poses[scn.alias[0]]
-    verts = [it.construct("Vertex", [Poly.const(100 + 7 * k), poses[k]], dict(fixed=(k in scn.fixed))) for k in range(len(dims))]
+    def vid(k):
+        return Poly.var("id%d" % k) if scn.symbolic_ids else Poly.const(100 + 7 * k)
+    verts = [it.construct("Vertex", [vid(k), poses[k]], dict(fixed=(k in scn.fixed))) for k in range(len(dims))]
     edges, spec = [], []
     m = scn.err_len
     for ei, vs in enumerate(scn.edges):
         err = sym_vec("e%d" % ei, m)
         W = sym_symmetric("W%d" % ei, m)
         Js = [sym_mat("J%d_%d" % (ei, k), m, dims[v]) for k, v in enumerate(vs)]
-        e = Obj("BaseEdge", information=W, estimate=None, vertex_ids=[Poly.const(100 + 7 * v) for v in vs], vertices=None)
+        e = Obj("BaseEdge", information=W, estimate=None, vertex_ids=[vid(v) for v in vs], vertices=None)
         e.stubs["calc_error"] = (lambda err=err: err)
         e.stubs["calc_jacobians"] = (lambda Js=Js: list(Js))
         e.stubs["is_valid"] = lambda: True
@@ -206,7 +209,13 @@ def assembly_obligation(scn, chi2_only=False):
     def fn(it):
         g, verts, dims, spec = _build(it, scn)
         return _assemble_and_compare(it, g, verts, dims, spec, scn, chi2_only=chi2_only)
-    return lambda pkg: run_obligation(pkg, fn)
+
+    def names_hook(d):
+        vs = d.variables()
+        if len(vs) == 2 and len(d.t) == 2 and all(v.startswith("id") for v in vs) and sorted(d.t.values()) == [-1, 1] and d.total_degree() == 1:
+            return {-1, 1}
+        return None
+    return lambda pkg: run_obligation(pkg, fn, hook=names_hook if scn.symbolic_ids else None)
 
 
 def sequence_obligation(first, second):
